@@ -36,7 +36,186 @@ func calls(n ast.Node, pkg, fn string) bool {
 	return found
 }
 
+// lockCall reports whether st is the statement cacheLock.<name>() for one of the given names.
+func lockCall(st ast.Stmt, names ...string) bool {
+	es, ok := st.(*ast.ExprStmt)
+	if !ok {
+		return false
+	}
+
+	c, ok := es.X.(*ast.CallExpr)
+	if !ok {
+		return false
+	}
+
+	sel, ok := c.Fun.(*ast.SelectorExpr)
+	if !ok {
+		return false
+	}
+
+	id, ok := sel.X.(*ast.Ident)
+	if !ok || id.Name != "cacheLock" {
+		return false
+	}
+
+	for _, n := range names {
+		if sel.Sel.Name == n {
+			return true
+		}
+	}
+
+	return false
+}
+
+// deleteMode checks that caches.Delete is ONE critical section under the write lock (the premise
+// "Delete is atomic: lookup + removal + result" of the model) and, when it is not, writes a copy with
+// a yield hook in every gap between two lock regions so the harness can park requests there.
+//
+//	usage: instrument -delete <in delete.go> <out delete.go>
+//	prints  DELETE-ATOMIC                      one cacheLock.Lock() region, nothing written
+//	        DELETE-GAPS <n>                    n yield hooks written to <out>
+//	        DELETE-SHAPE <why>   (exit 3)      no recognisable locking at all
+func deleteMode(in, out string) {
+	fset := token.NewFileSet()
+
+	f, err := parser.ParseFile(fset, in, nil, parser.ParseComments)
+	if err != nil {
+		fmt.Fprintln(os.Stderr, err)
+		os.Exit(2)
+	}
+
+	var fd *ast.FuncDecl
+
+	for _, d := range f.Decls {
+		if x, ok := d.(*ast.FuncDecl); ok && x.Recv == nil && x.Name.Name == "Delete" && x.Body != nil {
+			fd = x
+		}
+	}
+
+	if fd == nil {
+		fmt.Println("DELETE-SHAPE no func Delete")
+		os.Exit(3)
+	}
+
+	var acquire []token.Pos
+
+	writeLocks, readLocks, deferred := 0, 0, 0
+
+	ast.Inspect(fd.Body, func(n ast.Node) bool {
+		switch x := n.(type) {
+		case *ast.FuncLit:
+			return false
+		case *ast.DeferStmt:
+			if sel, ok := x.Call.Fun.(*ast.SelectorExpr); ok {
+				if id, ok := sel.X.(*ast.Ident); ok && id.Name == "cacheLock" {
+					deferred++
+				}
+			}
+		case *ast.ExprStmt:
+			if lockCall(x, "Lock") {
+				writeLocks++
+
+				acquire = append(acquire, x.Pos())
+			} else if lockCall(x, "RLock") {
+				readLocks++
+
+				acquire = append(acquire, x.Pos())
+			}
+		}
+
+		return true
+	})
+
+	if len(acquire) == 0 {
+		fmt.Println("DELETE-SHAPE Delete never takes cacheLock")
+		os.Exit(3)
+	}
+
+	if len(acquire) == 1 && writeLocks == 1 {
+		fmt.Println("DELETE-ATOMIC")
+
+		return
+	}
+
+	if len(acquire) == 1 {
+		fmt.Println("DELETE-SHAPE the only critical section of Delete is a read lock")
+		os.Exit(3)
+	}
+
+	last := acquire[len(acquire)-1]
+	gaps := 0
+
+	var walk func(b *ast.BlockStmt)
+
+	walkStmt := func(st ast.Stmt) {
+		ast.Inspect(st, func(n ast.Node) bool {
+			if _, ok := n.(*ast.FuncLit); ok {
+				return false
+			}
+
+			if b, ok := n.(*ast.BlockStmt); ok {
+				walk(b)
+
+				return false
+			}
+
+			return true
+		})
+	}
+
+	walk = func(b *ast.BlockStmt) {
+		var nl []ast.Stmt
+
+		for _, st := range b.List {
+			walkStmt(st)
+
+			nl = append(nl, st)
+
+			if lockCall(st, "Unlock", "RUnlock") && st.Pos() < last {
+				gaps++
+
+				nl = append(nl, &ast.ExprStmt{X: &ast.CallExpr{
+					Fun:  ast.NewIdent("VerifYield"),
+					Args: []ast.Expr{&ast.BasicLit{Kind: token.STRING, Value: fmt.Sprintf("%q", fmt.Sprintf("caches.Delete gap %d", gaps))}},
+				}})
+			}
+		}
+
+		b.List = nl
+	}
+
+	walk(fd.Body)
+
+	if gaps == 0 {
+		fmt.Printf("DELETE-SHAPE %d lock acquisitions (%d deferred unlocks) but no unlock statement between them\n", len(acquire), deferred)
+		os.Exit(3)
+	}
+
+	f.Comments = nil
+
+	var buf bytes.Buffer
+	if err := format.Node(&buf, fset, f); err != nil {
+		fmt.Fprintln(os.Stderr, err)
+		os.Exit(2)
+	}
+
+	buf.WriteString("\n// VerifYield is set by the verification harness; the default does nothing.\nvar VerifYield = func(string) {}\n")
+
+	if err := os.WriteFile(out, buf.Bytes(), 0o644); err != nil {
+		fmt.Fprintln(os.Stderr, err)
+		os.Exit(2)
+	}
+
+	fmt.Printf("DELETE-GAPS %d\n", gaps)
+}
+
 func main() {
+	if len(os.Args) == 4 && os.Args[1] == "-delete" {
+		deleteMode(os.Args[2], os.Args[3])
+
+		return
+	}
+
 	if len(os.Args) != 3 {
 		fmt.Fprintln(os.Stderr, "usage: instrument in out")
 		os.Exit(2)
